@@ -170,6 +170,54 @@ theorem late_signal_takes_effect (e : Env) (k : Nat) (s : Sig) (fuel : Nat) (hl 
       rw [this.1, this.2.1, this.2.2]
       exact ih (i + 1) (by omega) (by omega)
 
+/-- **A termination request caught during the handshake** (after `fork`, while
+    the runner waits for the step's process group to appear) is not lost: the
+    first thing the wait loop does is signal the group, and the exit status is
+    non-zero. -/
+theorem handshake_signal_takes_effect (e : Env) (f : Fork) (s : Sig) (fuel : Nat)
+    (hok : f.hsOk = true) (hs : f.hsSig = some s) :
+    ∃ s', pending e f = some s' ∧
+      stepExec e f (fuel + 1) = ((killwait (withPending e f)).1, exitOf (killwait (withPending e f)).2 (some s')) ∧
+      (stepExec e f (fuel + 1)).1.head? = some .killTerm ∧ (stepExec e f (fuel + 1)).2 ≠ 0 := by
+  have hp : ∃ s', pending e f = some s' := by
+    unfold pending; cases e.sig 0 with
+    | some x => exact ⟨x, rfl⟩
+    | none => exact ⟨s, hs⟩
+  obtain ⟨s', hs'⟩ := hp
+  have h0 : (withPending e f).sig 0 = some s' := by simp [withPending, hs']
+  have hrun : stepExec e f (fuel + 1) = ((killwait (withPending e f)).1, exitOf (killwait (withPending e f)).2 (some s')) := by
+    simp only [stepExec, hok, if_true, run, loop, h0]
+  refine ⟨s', hs', hrun, ?_, ?_⟩
+  · rw [hrun]
+    simp only [killwait]
+    split
+    · rfl
+    · split <;> rfl
+  · rw [hrun]; exact (exit_nonzero_after_signal _ s').1
+
+/-- the process group never appeared: the runner reports a failure, whatever the child's status -/
+theorem handshake_failure_nonzero (e : Env) (f : Fork) (fuel : Nat) (h : f.hsOk = false) :
+    (stepExec e f fuel).2 ≠ 0 := by
+  simp only [stepExec, h, Bool.false_eq_true, if_false]
+  split
+  · decide
+  · assumption
+
+/-- without a signal during the handshake, `step_exec` is the wait loop -/
+theorem handshake_quiet (e : Env) (f : Fork) (fuel : Nat) (hok : f.hsOk = true) (hs : f.hsSig = none) :
+    stepExec e f fuel = run e fuel := by
+  have : withPending e f = e := by
+    cases e with
+    | mk sg nat aT aK lt =>
+      have hf : (fun i => if i = 0 then pending ⟨sg, nat, aT, aK, lt⟩ f else sg i) = sg := by
+        funext i
+        by_cases hi : i = 0
+        · subst hi; simp only [if_true, pending, hs]; cases sg 0 <;> rfl
+        · simp [hi]
+      simp only [withPending, hf]
+  simp only [stepExec, hok, if_true, this]
+
+
 /-- the exit status without a signal is the command's own -/
 theorem exit_faithful (c n : Nat) : exitOf (.exited c) none = c ∧ exitOf (.signaled n) none = 128 + n := by
   simp [exitOf]
@@ -196,6 +244,11 @@ example : run (envTermAt 50 30 false) 100 = ([.reap (.exited 0)], 0) := by decid
 /-- the request arrives in the iteration whose waitpid reaps the main process -/
 example : run { envTermAt 50 3 false with late := fun i => if i = 3 then some .term else none } 100 =
     ([.reap (.exited 0), .killTermLate], 143) := by decide
+
+/-- non-vacuity: SIGTERM during the handshake of a step that would run 3 s; a handshake that fails -/
+example : stepExec (envTermAt 50 30 false) ⟨some .term, true, .other⟩ 100 = ([.killTerm, .reap (.signaled 15)], 143) := by decide
+example : stepExec (envTermAt 50 30 false) ⟨none, false, .exited 0⟩ 100 = ([.reap (.exited 0)], 1) := by decide
+example : stepExec (envTermAt 50 3 false) ⟨none, true, .other⟩ 100 = ([.reap (.exited 0)], 0) := by decide
 
 end C07
 end Robsd
